@@ -58,6 +58,10 @@ def _dag(rnd):
         cnt = 1 if k in ('not', 'id') else rnd.randint(2, 3)
         ins = [{'t': rnd.choice(['blk', 'name']), 'x': rnd.randint(lo, idx - 1)} for _ in range(cnt)]
         blocks.append(_c(f'c{j + 1}', k, ins))
+    if ns > 1 and rnd.random() < 0.3:
+        # an on_output event of a source fails non-fatally (unknown event type): the caller gets
+        # the error, the simulation continues and must still settle consistently
+        blocks[0]['bad'] = 2
     order = list(range(1, ns + nc + 1))
     rnd.shuffle(order)
     bursts = [[(rnd.randint(1, ns), 'put', rnd.randint(0, 1)) for _ in range(rnd.choice([1, 2, 3]))]
